@@ -341,10 +341,10 @@ func (f *Formatter) formatBranchTrailing(buf *bytes.Buffer, block *ast.BlockStat
 		buf.WriteString(" " + v)
 		return false
 	}
-	// Otherwise, print to the new line
+	// Otherwise, print to the new lines, one comment per line like the leading comments of the
+	// next branch (that is what they are when the output is formatted again)
 	buf.WriteString("\n")
-	buf.WriteString(f.indent(block.Nest-1) + v)
-	buf.WriteString("\n")
+	buf.WriteString(f.formatComment(block.Trailing, "\n", block.Nest-1))
 	return true
 }
 
